@@ -52,3 +52,51 @@ def _render_list(t: Toks) -> str:
     esc = p_bool(t)
     obj = realize_list(ns)
     return ok_str(obj.get_html_string(indent, eol, add_ws=aw, _escape_strings=esc))
+
+
+def _module(name: str):
+    import htmltools
+    return {"tags": htmltools.tags, "svg": htmltools.svg, "top": htmltools}[name]
+
+
+@op("tagfn")
+def _tagfn(t: Toks) -> str:
+    m = p_str(t)
+    f = p_str(t)
+    w = t.next()
+    fn = getattr(_module(m), f, None)
+    if fn is None or not callable(fn):
+        return "missing"
+    kw = {}
+    if w == "T":
+        kw["_add_ws"] = True
+    elif w == "F":
+        kw["_add_ws"] = False
+    elif w == "O":
+        kw["_add_ws"] = _tagfn.other[hash(f) % len(_tagfn.other)]
+    r = fn(**kw)
+    return "ok " + es(r.name) + " " + ("T" if r.add_ws is True else "F" if r.add_ws is False else "?")
+
+
+_tagfn.other = [1, 0, None, "True", "", 1.0, [], ()]
+
+
+@op("reexport")
+def _reexport(t: Toks) -> str:
+    import htmltools
+    f = p_str(t)
+    top = getattr(htmltools, f, None)
+    return "T" if (top is not None and top is getattr(htmltools.tags, f, None) and f in htmltools.__all__) else "F"
+
+
+# per-area op modules register themselves: harness/ops_*.py
+def _load_plugins():
+    import glob
+    import importlib
+    import os
+    here = os.path.dirname(os.path.abspath(__file__))
+    for p in sorted(glob.glob(os.path.join(here, "ops_*.py"))):
+        importlib.import_module(os.path.basename(p)[:-3])
+
+
+_load_plugins()
